@@ -526,24 +526,42 @@ fn drive(p: &dyn Property, tier: Tier) -> ! {
     let mut seen_class = BTreeSet::new();
     violations.sort_by_key(|v| v.case.to_string().len());
     // a reported case must fail again when re-executed alone in this (fresh) process; a failure
-    // that does not reproduce points at state leaking between cases of a worker, i.e. at the
-    // machinery, and is never turned into a verdict
+    // that does not reproduce points at state leaking between cases of a worker (possibly caused
+    // by an earlier, genuinely failing case). Per class the smallest *reproducing* case is
+    // reported; if none of the recorded cases reproduces, that is a machinery error, never a verdict.
     {
-        let mut checked = BTreeSet::new();
-        for v in &violations {
-            if v.class == "subject-crash" || v.class == "subject-hang" || v.case.get("cross_process").is_some() || !checked.insert(v.class.clone()) {
+        let mut classes: Vec<String> = violations.iter().map(|v| v.class.clone()).collect();
+        classes.sort();
+        classes.dedup();
+        let mut keep: Vec<&Viol> = vec![];
+        for c in classes {
+            let cands: Vec<&Viol> = violations.iter().copied().filter(|v| v.class == c).collect();
+            if c == "subject-crash" || c == "subject-hang" {
+                keep.push(cands[0]);
                 continue;
             }
-            let r = std::panic::catch_unwind(std::panic::AssertUnwindSafe(|| p.replay(&v.case)));
-            if let Ok(Ok(())) = r {
-                machinery(&format!(
-                    "a failing case of class '{}' did not fail again when replayed alone: {} :: {}",
-                    v.class,
-                    v.case.to_string().chars().take(300).collect::<String>(),
-                    v.detail.chars().take(300).collect::<String>()
-                ));
+            let mut found = None;
+            for v in cands.iter().take(24) {
+                if v.case.get("cross_process").is_some() {
+                    found = Some(*v);
+                    break;
+                }
+                let r = std::panic::catch_unwind(std::panic::AssertUnwindSafe(|| p.replay(&v.case)));
+                if !matches!(r, Ok(Ok(()))) {
+                    found = Some(*v);
+                    break;
+                }
+            }
+            match found {
+                Some(v) => keep.push(v),
+                None => machinery(&format!(
+                    "none of the recorded failing cases of class '{c}' failed again when replayed alone; first: {} :: {}",
+                    cands[0].case.to_string().chars().take(300).collect::<String>(),
+                    cands[0].detail.chars().take(300).collect::<String>()
+                )),
             }
         }
+        violations = keep;
     }
     for v in &violations {
         // one replay file per class (the first = smallest in enumeration order per worker)
